@@ -147,14 +147,17 @@ def partial_transpose_moves_indices(rho, sys, dim, result):
         dc = [int(dim), x.shape[1] // int(dim)]
     else:
         d = np.asarray(dim)
-        if d.ndim == 1:
+        if d.size == 1:
+            d0 = int(round(float(d.reshape(-1)[0])))
+            dr, dc = [d0, x.shape[0] // d0], [d0, x.shape[1] // d0]
+        elif d.ndim == 1:
             dr = dc = [int(round(float(v))) for v in d]
-            if len(dr) == 1:
-                dr = [dr[0], x.shape[0] // dr[0]]
-                dc = [dc[0], x.shape[1] // dc[0]]
         else:
             d = d.reshape(2, -1)
             dr, dc = [int(round(float(v))) for v in d[0]], [int(round(float(v))) for v in d[1]]
+    if dr != dc and min(dr + dc) < 2:
+        CTX.evals["contract:partial_transpose:outside-quantifier"] += 1  # rectangular inputs are quantified over local dimensions >= 2
+        return None
     if sys is None:
         s = [1]
     elif isinstance(sys, (int, np.integer)):
@@ -257,6 +260,9 @@ def realignment_is_model(input_mat, dim, result):
             a, b, c, d = int(dd[0][0]), int(dd[0][1]), int(dd[1][0]), int(dd[1][1])
     if a * b != x.shape[0] or c * d != x.shape[1]:
         return None
+    if min(a, b, c, d) < 2:
+        CTX.evals["contract:realignment:outside-quantifier"] += 1  # the property quantifies realignment over local dimensions >= 2
+        return None
     exp = ref.realign(x, a, b, c, d)
     res = np.asarray(result)
     ok = _exact(res, exp)
@@ -328,11 +334,11 @@ def kraus_to_choi_is_definition(kraus_ops, sys, result):
 
 TARGETS = {
     "permute_systems": ("toqito.perms.permute_systems", "permute_systems", permute_is_relabelling, True),
-    "swap": ("toqito.perms.swap", "swap", swap_is_transposition, False),
+    "swap": ("toqito.perms.swap", "swap", swap_is_transposition, True),
     "permutation_operator": ("toqito.perms.permutation_operator", "permutation_operator", permutation_operator_is_model, False),
     "partial_trace": ("toqito.channels.partial_trace", "partial_trace", partial_trace_is_contraction, True),
     "partial_transpose": ("toqito.channels.partial_transpose", "partial_transpose", partial_transpose_moves_indices, True),
-    "realignment": ("toqito.channels.realignment", "realignment", realignment_is_model, False),
+    "realignment": ("toqito.channels.realignment", "realignment", realignment_is_model, True),
     "apply_channel": ("toqito.channel_ops.apply_channel", "apply_channel", apply_channel_is_action, False),
     "kraus_to_choi": ("toqito.channel_ops.kraus_to_choi", "kraus_to_choi", kraus_to_choi_is_definition, False),
 }
